@@ -32,7 +32,7 @@ static char *place(const unsigned char *t, size_t n, int where)
 }
 
 /* ------------------------------------------------------------------ observed numbers, judged by the Python oracle */
-#define NUMOBS_CAP (1u << 18)
+#define NUMOBS_CAP (1u << 22)
 typedef struct { char *lex; uint64_t bits; int iv; } numobs;
 static numobs *nobs; static size_t nobs_n;
 static uint64_t hstr(const char *s) { uint64_t h = 1469598103934665603ULL; for (; *s; s++) { h ^= (unsigned char)*s; h *= 1099511628211ULL; } return h; }
@@ -100,7 +100,7 @@ static int trees_equal(const cJSON *a, const cJSON *b)
 enum { EP_LENOPTS, EP_LENOPTS_NOEND, EP_LEN, EP_PARSE, EP_OPTS, EP_OPTS_NOEND, EP_COUNT };
 static const char *EPN[] = { "ParseWithLengthOpts", "ParseWithLengthOpts(no end arg)", "ParseWithLength", "Parse", "ParseWithOpts", "ParseWithOpts(no end arg)" };
 static long cls_count[3], ep_calls, accepted, rejected, failinj_runs;
-static int do_failinject;
+static int do_failinject, full_table, default_hooks; static long sweep_count;
 
 static void viol(const char *prop, const char *fmt, ...)
 {
@@ -114,6 +114,7 @@ static void viol(const char *prop, const char *fmt, ...)
 static cJSON *call_ep(int ep, const char *buf, size_t len, int rnt, const char **endp)
 {
     *endp = (const char*)(uintptr_t)0x1;   /* sentinel: untouched */
+    rnt = vb_truthy(rnt, (unsigned long)ep_calls);      /* "termination required" is any non-zero int */
     switch (ep) {
         case EP_LENOPTS: return cJSON_ParseWithLengthOpts(buf, len, endp, rnt);
         case EP_LENOPTS_NOEND: return cJSON_ParseWithLengthOpts(buf, len, NULL, rnt);
@@ -144,6 +145,7 @@ static int check_call(int ep, const char *buf, size_t len, int rnt, const jv *va
     if (t) {
         accepted++;
         if (cls[0] == 'R') viol("C03", "%s(len %zu, rnt %d) accepted a text that must be rejected", EPN[ep], len, rnt);
+        if (cls[0] == 'G') viol("C03 C10", "%s(len %zu, rnt %d): termination required, the value is followed by bytes that are not whitespace, yet accepted", EPN[ep], len, rnt);
         if (cls[0] == 'T') viol("C10", "%s(len %zu): termination required but the value is not followed by whitespace and a zero byte only, yet accepted", EPN[ep], len);
         if (!vb_wellformed(t, why, sizeof(why), 0)) viol("C01", "%s: returned tree is not well-formed: %s", EPN[ep], why);
         else if (cls[0] == 'A' || mok) {
@@ -206,6 +208,92 @@ static void failinject(const char *buf, size_t len, int rnt)
     t = cJSON_CreateArray(); if (!t) viol("C08", "library unusable after allocation failures"); cJSON_Delete(t);
 }
 
+/* ["Y", copy, valid]: the string decoder of the specification copies every byte of copy[] unchanged (everything but zero, quote, backslash);
+ * every string literal with 1, 2 and 3 such bytes is parsed and must give exactly those bytes (C02 where the literal is an RFC 8259 string:
+ * valid[] bytes / well-formed UTF-8; elsewhere a different outcome is drift). */
+static long table_literals, sweep_numbers;
+static int u8ok(const unsigned char *s, int n)
+{
+    int i = 0;
+    while (i < n) {
+        unsigned c = s[i];
+        if (c < 0x80) { i++; continue; }
+        if (c >= 0xC2 && c <= 0xDF) { if (i + 1 >= n || (s[i + 1] & 0xC0) != 0x80) return 0; i += 2; continue; }
+        if (c >= 0xE0 && c <= 0xEF) { if (i + 2 >= n || (s[i + 1] & 0xC0) != 0x80 || (s[i + 2] & 0xC0) != 0x80) return 0;
+            if (c == 0xE0 && s[i + 1] < 0xA0) return 0; if (c == 0xED && s[i + 1] >= 0xA0) return 0; i += 3; continue; }
+        return 0;
+    }
+    return 1;
+}
+static int do_strtable(const jv *line, int full)
+{
+    const jv *cp = jv_at(line, 1), *va = jv_at(line, 2); unsigned char copy[256], valid[256]; unsigned b1, b2, b3; int len; unsigned char lit[8];
+    if (!cp || !va || cp->n != 255 || va->n != 255) return -1;
+    for (b1 = 1; b1 <= 255; b1++) { copy[b1] = (unsigned char)jv_int(cp->e[b1 - 1]); valid[b1] = (unsigned char)jv_int(va->e[b1 - 1]); }
+    al_case_begin();
+    if (!VD_TRY()) { viol("*", "parsing short string literals: memory fault"); return 1; }
+    for (len = 1; len <= 3; len++)
+        for (b1 = 1; b1 <= 255; b1++) {
+            vd_tick();
+            if (!copy[b1]) continue;
+            for (b2 = (len >= 2 ? 1 : 0); b2 <= (len >= 2 ? 255u : 0u); b2++) {
+                unsigned step3 = 1, start3 = (len >= 3 ? 1 : 0);
+                if (len >= 2 && !copy[b2]) continue;
+                if (len == 3 && !full && !(b1 >= 0xC0 || b1 < 0x21 || b1 == 0x7F)) { step3 = 11; start3 = 1 + (b1 + b2) % 11; }
+                for (b3 = start3; b3 <= (len >= 3 ? 255u : 0u); b3 += step3) {
+                    cJSON *t; int rfc; const char *end = NULL;
+                    if (len >= 3 && !copy[b3]) continue;
+                    lit[0] = '"'; lit[1] = (unsigned char)b1; lit[2] = (unsigned char)b2; lit[3] = (unsigned char)b3; lit[1 + len] = '"'; lit[2 + len] = 0;
+                    rfc = (valid[b1] || b1 >= 0x80) && (len < 2 || valid[b2] || b2 >= 0x80) && (len < 3 || valid[b3] || b3 >= 0x80) && u8ok(lit + 1, len);   /* ASCII validity from the table, UTF-8 well-formedness as in JsonText.tla */
+                    al_window(0);
+                    t = ((b1 ^ b2 ^ b3) & 1) ? cJSON_ParseWithLength((const char*)lit, (size_t)len + 2) : cJSON_ParseWithOpts((const char*)lit, &end, vb_truthy(1, b3)); table_literals++;
+                    if (!t || !cJSON_IsString(t) || !t->valuestring || strlen(t->valuestring) != (size_t)len || memcmp(t->valuestring, lit + 1, (size_t)len)) {
+                        if (rfc) viol("C02", "the string literal with bytes %02x %02x %02x (length %d), valid RFC 8259, is %s", b1, b2, b3, len, t ? "decoded to different bytes" : "rejected");
+                        else VD.drift++;
+                    }
+                    cJSON_Delete(t);
+                    if (al_live != 0) { viol("C01 C03", "%ld block(s) remain allocated after parsing and deleting the string literal %02x %02x %02x", al_live, b1, b2, b3); al_case_begin(); }
+                    if (VD.violations > 20) goto done;
+                }
+            }
+        }
+done:
+    VD_END();
+    return 1;
+}
+/* numeric sweep (C02): seeded families of RFC 8259 number literals; every (literal, valuedouble, valueint) goes to the correctly rounding oracle */
+static uint64_t lcg_state = 0x243F6A8885A308D3ULL;
+static unsigned lcg(unsigned n) { lcg_state = lcg_state * 6364136223846793005ULL + 1442695040888963407ULL; return (unsigned)((lcg_state >> 33) % n); }
+static void digits(char **p, int n, int nolead0) { int i; for (i = 0; i < n; i++) *(*p)++ = (char)('0' + ((i == 0 && nolead0) ? 1 + lcg(9) : lcg(10))); }
+static void do_numsweep(long count)
+{
+    long i; char lit[128];
+    al_case_begin();
+    if (!VD_TRY()) { viol("*", "numeric sweep: memory fault"); return; }
+    for (i = 0; i < count; i++) {
+        char *p = lit; cJSON *t; int fam = (int)(i % 6);
+        if ((i & 1023) == 0) vd_tick();
+        if (lcg(4) == 0) *p++ = '-';
+        switch (fam) {
+            case 0: *p++ = '0'; *p++ = '.'; digits(&p, 1 + (int)lcg(17), 0); break;                                                     /* 0.ddd */
+            case 1: digits(&p, 1 + (int)lcg(3), 1); *p++ = '.'; digits(&p, 1 + (int)lcg(15), 0); break;                               /* dd.ddd */
+            case 2: digits(&p, 1 + (int)lcg(17), 1); *p++ = lcg(2) ? 'e' : 'E'; if (lcg(3)) *p++ = lcg(2) ? '-' : '+'; digits(&p, 1, 0); if (lcg(2)) digits(&p, 1, 0); break;   /* small exponents */
+            case 3: digits(&p, 1, 1); *p++ = '.'; digits(&p, 1 + (int)lcg(17), 0); *p++ = 'e'; *p++ = lcg(2) ? '-' : '+'; p += sprintf(p, "%u", lcg(309)); break;
+            case 4: digits(&p, 19 + (int)lcg(20), 1); if (lcg(2)) { *p++ = '.'; digits(&p, 1 + (int)lcg(10), 0); } break;                  /* more digits than a double holds */
+            default: digits(&p, 1 + (int)lcg(10), 1); if (lcg(2)) { *p++ = '.'; digits(&p, 1 + (int)lcg(6), 0); } break;               /* short, everyday */
+        }
+        *p = 0;
+        al_window(0);
+        t = (i & 1) ? cJSON_Parse(lit) : cJSON_ParseWithLength(lit, (size_t)(p - lit)); sweep_numbers++;
+        if (!t || !cJSON_IsNumber(t)) viol("C02", "the RFC 8259 number literal %s is %s", lit, t ? "not decoded to a number" : "rejected");
+        else numobs_add(lit, t->valuedouble, t->valueint);
+        cJSON_Delete(t);
+        if (VD.violations > 20) break;
+    }
+    if (al_live != 0) viol("C01", "%ld block(s) remain allocated after the numeric sweep", al_live);
+    VD_END();
+}
+
 static int do_case(const jv *line)
 {
     const jv *bytes = jv_at(line, 1); size_t n = bytes->n, k; static unsigned char t[65536]; int hasnul = 0, drift = 0, where;
@@ -213,7 +301,7 @@ static int do_case(const jv *line)
     for (k = 0; k < n; k++) { t[k] = (unsigned char)jv_int(bytes->e[k]); if (!t[k]) hasnul = 1; }
     t[n] = 0;
     al_case_begin();
-    for (k = 2; k <= 5; k++) { const char *c = jv_at(jv_at(line, k), 4)->s; cls_count[c[0] == 'A' ? 0 : (c[0] == 'R' || c[0] == 'T') ? 1 : 2]++; }
+    for (k = 2; k <= 5; k++) { const char *c = jv_at(jv_at(line, k), 4)->s; cls_count[c[0] == 'A' ? 0 : (c[0] == 'R' || c[0] == 'T' || c[0] == 'G') ? 1 : 2]++; }
     for (where = 0; where < 3; where++) {
         int rnt;
         for (rnt = 0; rnt < 2; rnt++) {
@@ -240,7 +328,7 @@ static int do_case(const jv *line)
         }
     }
     if (al_live != 0) viol("C01", "%ld block(s) still allocated after all trees of the case were deleted", al_live);
-    if (al_libc_malloc_calls + al_libc_free_calls + al_libc_realloc_calls) {
+    if (!default_hooks && al_libc_malloc_calls + al_libc_free_calls + al_libc_realloc_calls) {
         viol("C14", "while custom allocation hooks are installed the parser called the C allocator directly (%ld malloc, %ld free, %ld realloc)", al_libc_malloc_calls, al_libc_free_calls, al_libc_realloc_calls);
         al_libc_malloc_calls = al_libc_free_calls = al_libc_realloc_calls = 0;
     }
@@ -282,14 +370,18 @@ static void deep_cases(void)
 int vd_parse_main(int argc, char **argv);
 int vd_parse_main(int argc, char **argv)
 {
-    char *line = NULL; size_t cap = 0; ssize_t len; const char *stats = NULL, *numout = NULL; int k; char extra[400];
+    char *line = NULL; size_t cap = 0; ssize_t len; const char *stats = NULL, *numout = NULL; int k; char extra[600];
     cJSON_Hooks hooks;
     for (k = 0; k < argc; k++) {
         if (!strcmp(argv[k], "--stats") && k + 1 < argc) stats = argv[k + 1];
         if (!strcmp(argv[k], "--numobs") && k + 1 < argc) numout = argv[k + 1];
         if (!strcmp(argv[k], "--failinject")) do_failinject = 1;
+        if (!strcmp(argv[k], "--fulltable")) full_table = 1;
+        if (!strcmp(argv[k], "--numsweep") && k + 1 < argc) sweep_count = atol(argv[k + 1]);
+        if (!strcmp(argv[k], "--defaulthooks")) default_hooks = 1;
     }
-    hooks.malloc_fn = al_malloc; hooks.free_fn = al_free; cJSON_InitHooks(&hooks);
+    hooks.malloc_fn = al_malloc; hooks.free_fn = al_free;
+    if (default_hooks) cJSON_InitHooks(NULL); else cJSON_InitHooks(&hooks);     /* default: the library's own malloc/free/realloc, redirected to the tracking allocator */
     region_init();
     vd_install_handlers();
     deep_cases();
@@ -298,6 +390,11 @@ int vd_parse_main(int argc, char **argv)
         if (len <= 0) continue;
         if (line[0] != '"') { if (VD.passthrough) fputs(line, VD.passthrough); continue; }
         copy = strdup(line); jv_reset(); v = jv_parse_line(line);
+        if (v && v->t == JV_ARR && v->n == 3 && jv_is_str(jv_at(v, 0), "Y")) {
+            VD.curline = copy; VD.cases++;
+            if (do_strtable(v, full_table) < 0) { fprintf(stderr, "vdrv: cannot interpret string table\n"); return 2; }
+            if (sweep_count) do_numsweep(sweep_count);
+            VD.nontrivial++; VD.curline = NULL; free(copy); continue; }
         if (!v || v->t != JV_ARR || v->n < 6 || !jv_is_str(jv_at(v, 0), "P")) { if (VD.passthrough) fputs(copy, VD.passthrough); free(copy); continue; }
         VD.curline = copy; VD.cases++;
         rc = do_case(v);
@@ -307,8 +404,8 @@ int vd_parse_main(int argc, char **argv)
         vd_tick(); VD.curline = NULL; free(copy);
     }
     if (numout) numobs_dump(numout);
-    snprintf(extra, sizeof(extra), "\"variants_must_accept\": %ld, \"variants_must_reject\": %ld, \"variants_open\": %ld, \"entry_point_calls\": %ld, \"accepted\": %ld, \"rejected\": %ld, \"other_property_violations\": %ld, \"distinct_number_observations\": %zu, \"failinject_runs\": %ld",
-             cls_count[0], cls_count[1], cls_count[2], ep_calls, accepted, rejected, VD.by_kind[0], nobs_n, failinj_runs);
+    snprintf(extra, sizeof(extra), "\"variants_must_accept\": %ld, \"variants_must_reject\": %ld, \"variants_open\": %ld, \"entry_point_calls\": %ld, \"accepted\": %ld, \"rejected\": %ld, \"other_property_violations\": %ld, \"distinct_number_observations\": %zu, \"failinject_runs\": %ld, \"short_string_literals_against_table\": %ld, \"number_literals_swept\": %ld",
+             cls_count[0], cls_count[1], cls_count[2], ep_calls, accepted, rejected, VD.by_kind[0], nobs_n, failinj_runs, table_literals, sweep_numbers);
     if (stats) vd_write_stats(stats, extra);
     return VD.violations ? 1 : 0;
 }
